@@ -146,6 +146,10 @@ def run(F, rep, tier):
             if {sr, sa} != {"self", "other"}:
                 rep.violation(r2, key, "%s: recursive call on component %s relates %s with %s (expected one side each)" % (nm, cr, sr, sa), "%s:%s" % (FILE, line))
                 continue
+            if nm == "is_conformant" and callee.endswith("is_equivalent"):
+                rep.violation(r2, key, "is_conformant compares component %s with is_equivalent: conformance must be covariant in element, entry and result types "
+                              "(context<a: Null> conforms to context<a: number>) and contravariant in parameter types, not invariant" % (cr,), "%s:%s" % (FILE, line))
+                continue
             if nm == "is_conformant" and callee.endswith("is_conformant"):
                 contra = cr == ("Function", 0)
                 want = ("other", "self") if contra else ("self", "other")
@@ -233,6 +237,29 @@ def run(F, rep, tier):
         else:
             rep.violation(r4, key, "the conformance test dominating this return is not `type_of(actual) conforms to target`", "%s:%s" % (FILE, line))
     rep.floor(r4, "non-null returns of coerced", nret, 3)
+    # the value itself is returned whenever its type conforms: that decision must not be preceded by another rule (a value that conforms and is also a
+    # singleton list / also fits as a list element would be unwrapped / wrapped instead of returned unchanged)
+    ident = [(d, cond, line) for d, cond, line in outs if d and d[0] == "via" and d[1] == "clone" and d[2] == ("arg", 1)]
+    if not ident:
+        rep.violation(r4, "coerced:identity", "coerced has no path returning the value itself (actual_value.clone())", FILE)
+    for d, cond, line in ident:
+        others = [c for c in cond if not (c[2] is True and c[0] and c[0][0] == "call" and (c[0][1] or "").endswith("FeelType::is_conformant"))]
+        if others:
+            rep.violation(r4, "coerced:identity-first", "the value itself is returned only after other coercion rules were tried (conditions before it: %s): a conforming value that also matches "
+                          "a wrap / unwrap rule is changed, and coercing twice is not idempotent" % [str(c[0])[:60] for c in others][:3], "%s:%s" % (FILE, line))
+        else:
+            rep.ok(r4, "coerced:identity-first", "`type_of(value) conforms to target -> value` is the first rule")
+
+    def is_identity_test(c):
+        t = c[0]
+        return (t and t[0] == "call" and (t[1] or "").endswith("FeelType::is_conformant") and len(t[2]) == 2 and t[2][1] == ("arg", 0)
+                and t[2][0] and t[2][0][0] == "call" and (t[2][0][1] or "").endswith("::type_of") and t[2][0][2] == [("arg", 1)])
+    for d, cond, line in outs:
+        if d == ("null",) or (d, cond, line) in ident:
+            continue
+        if not any(is_identity_test(c) and c[2] is False for c in cond):
+            rep.violation(r4, "coerced:identity-first:%s" % describe(d), "the %s rule of coerced (line %s) is tried although the value's own type may conform to the target: a conforming value "
+                          "must be returned unchanged before any wrap / unwrap rule is considered" % (describe(d), line), "%s:%s" % (FILE, line))
     # tail expression of coerced must be null
     tail = coe["body"]["b"].get("e")
     if tail is not None and fl.desc(tail, {}) != ("null",):
